@@ -586,6 +586,13 @@ def run_history(seed, scratch: Path, rep: Report, *, nops, weights, checks, conc
                     failed = False
                 except Exception:
                     failed = True
+                # the process ends with the error: sibling deletions that have not been issued yet never are
+                fbk.dead = True
+                for _ in range(2000):
+                    if not fbk.inflight:
+                        break
+                    await asyncio.sleep(0.001)
+                await asyncio.sleep(0.005)
                 descr.append(['clean-with-a-failing-delete', user['name'], 'failed' if failed else 'completed'])
                 ch_, _, _ = world.lift()
                 if not failed:
